@@ -147,7 +147,7 @@ def esc(rng, s: bytes, p=0.3):
 
 def gen_url(rng):
     scheme = rng.choice([b"http", b"https", b"ftp", b"HTTP", b"HtTp", b"hTTps"])
-    host = rng.choice([gen_domain(rng), gen_ip(rng), b"0x7f.0x0.0x0.0x1", b"0177.0.0.01", b"2130706433", b"[::1]", b"[2001:db8::7]", b"[::1%2e]", b"[::%31]", b"[%31::1]", esc(rng, gen_domain(rng), 0.2)])
+    host = rng.choice([gen_domain(rng), gen_ip(rng), b"0x7f.0x0.0x0.0x1", b"0177.0.0.01", b"2130706433", b"[::1]", b"[2001:db8::7]", b"[2001:DB8::1]", b"[0:0:0:0:0:0:0:1]", b"[::1%2e]", b"[::%31]", b"[%31::1]", esc(rng, gen_domain(rng), 0.2)])
     user = rng.choice([b"", b"", b"john", b"john.doe", esc(rng, b"a b", 0.5)])
     pw = rng.choice([b"", b"", b"secret", b"p%40ss"])
     colon = bool(pw) or rng.random() < 0.2  # 'user:@host' - a colon with an empty password
@@ -320,7 +320,10 @@ def bounded_indicator_nodes(tier, seed):
     rng = random.Random(seed)
     md = Multidecoder()
     inputs = [b"ip 192.168.001.010 and 172.016.254.001 x", b"http://update.example.com./x", b"\\\\host.example.org.\\share\\file.exe", b"mail john.doe@example.com ok", b"http://example.com/a%2fb?next=%3a%2f",
-              b"visit www.example-site.org today", b"1.2.3.4 <t>", b" 10.20.30.40 "]
+              b"visit www.example-site.org today", b"1.2.3.4 <t>", b" 10.20.30.40 ",
+              # context truncation (quote / bracket before the URL, its partner inside the match; a Pascal-string length byte): what is left must still be a URL with a host
+              b"x 'http://user@'@example.com/login y", b"(http://a:b@)@example.com/ z", b"\x00" * 12 + b"\x09http://a@0example.com/", b"'http://example.com/a'b/c'", b"(http://example.com/x)y",
+              b"see http://[2001:DB8::1]:8080/ and http://[2001:db8::1]/ x"]
     for _ in range(120 if tier == "quick" else 3000):
         parts = [rng.choice([gen_url(rng), gen_ip(rng), gen_domain(rng), b"user" + str(rng.randint(0, 99)).encode() + b"@" + gen_domain(rng), b"0" + gen_ip(rng)]) for _ in range(3)]
         inputs.append(b" ".join(parts))
